@@ -57,16 +57,18 @@ func (op Operator) Format(out io.Writer) error {
 			slices.Sort(keys)
 			for _, key := range keys {
 				val := dict[key]
+				if val == nil {
+					// an entry whose value is null is equivalent to an absent entry
+					continue
+				}
 				if err := pdf.Format(out, pdf.OptContentStream, key); err != nil {
 					return err
 				}
 				if _, err := out.Write([]byte(" ")); err != nil {
 					return err
 				}
-				if natVal, ok := val.(pdf.Native); ok {
-					if err := pdf.Format(out, pdf.OptContentStream, natVal); err != nil {
-						return err
-					}
+				if err := pdf.Format(out, pdf.OptContentStream, val); err != nil {
+					return err
 				}
 				if _, err := out.Write([]byte("\n")); err != nil {
 					return err
